@@ -1,6 +1,6 @@
 (* C03 — Consume is a gap-free, duplicate-free cursor over the live messages.
    Theorems only; each closed by [exact] of a lemma proved elsewhere. *)
-From KV Require Import Base Model Spec SearchProofs ReaderProofs LogInv ConsumeProofs.
+From KV Require Import Base Model Helpers Spec SearchProofs ReaderProofs LogInv ConsumeProofs ScanProofs.
 
 (* the transcribed binary search of pkg/index/offset.go Consume, for index arrays of any length:
    position of the first item whose offset is not below the requested one *)
@@ -58,3 +58,19 @@ Theorem C03_consume_preserves :
   Inv st -> log_consume H st off max = Ok (st1, o) -> Inv st1 /\ abs st1 = abs st.
 Proof. exact log_consume_preserves. Qed.
 Print Assumptions C03_consume_preserves.
+
+(* feeding the returned offset back, starting from OffsetOldest, visits every live message exactly once, in order,
+   and stops at NextOffset - for every state, every maxCount >= 1 *)
+Theorem C03_iteration_visits_everything_once :
+  forall (H : bytes -> Z) st max, Inv st -> 1 <= max ->
+  exists st', full_scan H (S (S (length (live (abs st))))) st OffsetOldest max [] = Ok (st', live (abs st), anext (abs st)) /\
+              Inv st' /\ abs st' = abs st.
+Proof. exact full_scan_correct. Qed.
+Print Assumptions C03_iteration_visits_everything_once.
+
+(* Consume returns no message only when nothing is left at or after the offset *)
+Theorem C03_empty_only_at_the_end :
+  forall (H : bytes -> Z) st off max st1 n, Inv st -> 1 <= max -> off <> OffsetNewest ->
+  log_consume H st off max = Ok (st1, (n, [])) -> from_off (live (abs st)) off = [].
+Proof. exact log_consume_empty_at_end. Qed.
+Print Assumptions C03_empty_only_at_the_end.
